@@ -93,6 +93,18 @@ def spell_vector(a, k):
         ("split-views", add(("mm", ("arr", tuple(float(x) for x in a[:2])), ("slice", V, 0, 2, None)),
                             mul(c(a[2]), ("idx", V, 2)), c(k))),
     ]
+    if k == 0:     # bare roots: the single-node fast paths of the extractor
+        out += [
+            ("bare-c@v", ("mm", arr, V)), ("bare-LC", ("LC", arr, V)),
+            ("bare-rev-view", ("mm", rev, ("slice", V, None, None, -1))),
+            ("bare-LC-expr", ("LC", arr, ("vbin", "*", V, c(1)))),
+        ]
+        if len(set(a)) == 1:
+            out += [("bare-k*sum", mul(c(a[0]), ("sum", V))), ("bare-sum*k", mul(("sum", V), c(a[0]))),
+                    ("bare-k*sum(rev)", mul(c(a[0]), ("sum", ("slice", V, None, None, -1)))),
+                    ("bare-sum(rev)*k", mul(("sum", ("slice", V, None, None, -1)), c(a[0])))]
+            if a[0] == 1:
+                out += [("bare-sum", ("sum", V)), ("bare-sum(rev)", ("sum", ("slice", V, None, None, -1)))]
     if len(set(a)) == 1:
         s = a[0]
         out += [
@@ -155,7 +167,7 @@ def all_cases(tier):
             for k in KS:
                 for lab, r in spell_vector(a, k):
                     yield ("con", lab, sense, "e~n"), PR.prob("min", objv, (("cmp", sense, r, c(1.5)),))
-                    if tier == "thorough" or lab in ("c@v", "c@(v+1)", "rev-view", "sum-k", "k*sum", "pow1"):
+                    if tier == "thorough" or lab.startswith("bare") or lab in ("c@v", "c@(v+1)", "rev-view", "sum-k", "k*sum", "pow1"):
                         yield ("con", lab, sense, "n~e"), PR.prob("min", objv, (("cmp", sense, c(1.5), r),))
                         yield ("con", lab, sense, "e~e"), PR.prob("min", objv, (("cmp", sense, r, other_v),))
     # vector / matrix constraints (one row per element), foreign variables around the vector
